@@ -400,16 +400,57 @@ class CFG:
                     stack.append(t)
         return seen
 
-    def must_pass(self, via: Iterable[int], frm: Iterable[int], to: Iterable[int], exclude_labels: Optional[Set[str]] = None) -> bool:
-        """Every path from a node of `frm` to a node of `to` passes through `via`."""
+    def must_pass(
+        self,
+        via: Iterable[int],
+        frm: Iterable[int],
+        to: Iterable[int],
+        exclude_labels: Optional[Set[str]] = None,
+        removed_edges: Optional[Set[Tuple[int, int, str]]] = None,
+        strict: bool = False,
+    ) -> bool:
+        """Every path from a node of `frm` to a node of `to` passes through `via`.
+        With strict=True paths of length >= 1 are considered (frm itself does not count as reached)."""
         via = set(via)
         to = set(to) - via
-        r = self.reachable([f for f in frm if f not in via], removed=via, exclude_labels=exclude_labels, include_srcs=True)
+        r = self.reachable(
+            [f for f in frm if f not in via],
+            removed=via,
+            exclude_labels=exclude_labels,
+            removed_edges=removed_edges,
+            include_srcs=not strict,
+        )
         return not (r & to)
 
-    def dominates(self, a: Iterable[int], b: Iterable[int], exclude_labels: Optional[Set[str]] = None) -> bool:
+    def dominates(
+        self,
+        a: Iterable[int],
+        b: Iterable[int],
+        exclude_labels: Optional[Set[str]] = None,
+        removed_edges: Optional[Set[Tuple[int, int, str]]] = None,
+    ) -> bool:
         """Every path ENTRY -> b passes through a."""
-        return self.must_pass(a, [self.entry], b, exclude_labels)
+        return self.must_pass(a, [self.entry], b, exclude_labels, removed_edges)
+
+    def branch_edges(self, test: ast.AST, label: str) -> Set[Tuple[int, int, str]]:
+        """Edges leaving the test node(s) of an if/while with the given label ('t' or 'f')."""
+        out = set()
+        for nid in self.by_ast.get(id(test), []):
+            for t, lab in self.nodes[nid].succ:
+                if lab == label:
+                    out.add((nid, t, lab))
+        return out
+
+    def cn(self, astnodes) -> List[int]:
+        """CFG nodes evaluating any of the given AST nodes."""
+        if isinstance(astnodes, ast.AST):
+            astnodes = [astnodes]
+        out: List[int] = []
+        for a in astnodes:
+            for i in self.nodes_containing(a):
+                if i not in out:
+                    out.append(i)
+        return out
 
     def can_reach(self, a: Iterable[int], b: Iterable[int], exclude_labels: Optional[Set[str]] = None, removed: Iterable[int] = ()) -> bool:
         return bool(self.reachable(a, removed=removed, exclude_labels=exclude_labels) & set(b))
